@@ -29,6 +29,7 @@ NAMES = [
     "banner.png", "MyBANNER.JPG", "xbn.PNG", "bnx.png", "background.png", "Song-bg.jpg", "bgm.txt", "cdtitle.gif", "CDTitle2.png",
     "jk_x.png", "xjk_.png", "jacket.jpg", "AlbumArt.bmp", "x-cd.png", "x-cd2.png", "x disc.png", "x title.png",
     "song.OGG", "song.mp3x", "track.wav", "bn", "notes.txt", "readme.bg", "Banner-BG.gif",
+    "a.mp3", "b.oga", "old_mp3", "cover_png", "CDTİTLE.png", "cdtıtle.png",
 ]
 PROP_OF = {"BANNER": "BANNER", "BACKGROUND": "BACKGROUND", "CDTITLE": "CDTITLE", "JACKET": "JACKET", "CDIMAGE": "CDIMAGE", "MUSIC": "MUSIC"}
 ATTR_OF = {"BANNER": "banner", "BACKGROUND": "background", "CDTITLE": "cdtitle", "JACKET": "jacket", "CDIMAGE": "cdimage", "MUSIC": "music"}
@@ -309,7 +310,7 @@ def explore_shard(acc, shard):
         elif kind == "packbanner":
             _, first = shard
             layer = "pack banners"
-            imgs = ["a.png", "B.JPG", "c.jpeg", "d.GIF", "e.bmp", "f.txt", "z.PNG"]
+            imgs = ["a.png", "B.JPG", "c.jpeg", "d.GIF", "e.bmp", "f.txt", "z.PNG", "cover_png", "x.jpgx"]
             besides = [[], ["MyPack.png"], ["MyPack.jpg", "MyPack.bmp"], ["Other.png"], ["mypack.png"], ["MyPack.gif", "Other.png"]]
             idx = imgs.index(first) if first is not None else None
             subsets = [[]] if first is None else [[first] + list(s) for r in range(0, 3) for s in itertools.combinations(imgs[idx + 1:], r)]
@@ -345,7 +346,7 @@ def explore(run):
     for asset in MA.KINDS:
         shards.append(("property", asset))
     shards.append(("packbanner", None))
-    for img in ["a.png", "B.JPG", "c.jpeg", "d.GIF", "e.bmp", "f.txt", "z.PNG"]:
+    for img in ["a.png", "B.JPG", "c.jpeg", "d.GIF", "e.bmp", "f.txt", "z.PNG", "cover_png", "x.jpgx"]:
         shards.append(("packbanner", img))
     k = run.seed % len(shards)
     shards = shards[k:] + shards[:k]
